@@ -638,10 +638,9 @@ def typed_run(sysname, data, cuts, kind, allowed=None):
             insp.eat_chunk(src.present(data[a:b]))
             src.scribble()
         insp.finish()
+        # (what container a region uses internally is its own business: only
+        # the bytes it holds after the caller re-used its buffer are compared)
         bad = region_exactness(insp, data, len(data))
-        for r in insp._capture_regions.values():
-            if not isinstance(r.data, bytes):
-                bad.append(('retains-a-%s' % type(r.data).__name__,))
         return verdict_inspector(insp), bad
     except Exception as e:
         return ('error', type(e).__name__), bad
